@@ -58,9 +58,34 @@ def ground_int_terms(ts):
     return list(out.values())
 
 
+def ground_terms_of_sort(ts, sort, cap=60):
+    out = {}
+    seen = set()
+    stack = list(ts)
+    while stack and len(out) < cap:
+        x = stack.pop()
+        if x.get_id() in seen:
+            continue
+        seen.add(x.get_id())
+        if z3.is_quantifier(x):
+            continue
+        if z3.is_app(x):
+            if x.sort() == sort and not z3.is_var(x):
+                out[x.get_id()] = x
+            stack.extend(x.children())
+    return list(out.values())
+
+
+_OTHER = {}
+
+
 def instantiate(h, terms):
     if z3.is_quantifier(h) and h.is_forall() and h.num_vars() == 1 and h.var_sort(0) == z3.IntSort():
         insts = [instantiate(z3.substitute_vars(h.body(), t), terms) for t in terms]
+        return z3.And(*insts) if insts else z3.BoolVal(True)
+    if z3.is_quantifier(h) and h.is_forall() and h.num_vars() == 1 and h.var_sort(0).kind() == z3.Z3_UNINTERPRETED_SORT:
+        ts = _OTHER.get(h.var_sort(0).name(), [])
+        insts = [z3.substitute_vars(h.body(), t) for t in ts]
         return z3.And(*insts) if insts else z3.BoolVal(True)
     if z3.is_and(h):
         return z3.And(*[instantiate(c, terms) for c in h.children()])
@@ -77,12 +102,32 @@ def instantiate(h, terms):
     return h
 
 
+def _quants(t):
+    out, seen, stack = [], set(), [t]
+    while stack:
+        x = stack.pop()
+        if x.get_id() in seen:
+            continue
+        seen.add(x.get_id())
+        if z3.is_quantifier(x):
+            out.append(x)
+            stack.append(x.body())
+        else:
+            stack.extend(x.children())
+    return out
+
+
 def qf_version(hyps, goal):
     """returns (hyps', goal') quantifier-free where possible, or None if the obligation has no quantifier"""
     if not has_quant(goal) and not any(has_quant(h) for h in hyps):
         return None
     g = skolemize_goal(goal)
     terms = ground_int_terms(list(hyps) + [g])
+    # first pass: Int-indexed invariants; its result supplies the ground terms of the other sorts (array reads at those indices)
+    _OTHER.clear()
+    hs0 = [instantiate(h, terms) for h in hyps]
+    for srt in {q.var_sort(0) for h in hyps for q in _quants(h) if q.num_vars() == 1 and q.var_sort(0).kind() == z3.Z3_UNINTERPRETED_SORT}:
+        _OTHER[srt.name()] = ground_terms_of_sort(hs0 + [g], srt)
     hs = [instantiate(h, terms) for h in hyps]
     # the negated goal may still contain existential positions (forall under negation in hypotheses etc.): leave to the solver
     return hs, g
